@@ -5,7 +5,8 @@
 //! chunks of 7 / 500 / 1000 bytes, chunks straddling the PDU boundary); the acceptor receives the raw
 //! PDUs. For every message: every PDU is a P-DATA-TF whose length does not exceed the maximum, carries
 //! exactly one value for the chosen presentation context, only the final one is marked last, and the
-//! values concatenate to the payload.
+//! values concatenate to the payload. And a hand-written acceptor that announces a maximum PDU length of 1 / 4 / 5 / 6 (no room for
+//! data: the writer must fail, not panic) and of 7 / 8 / 20 (1, 2, 14 data bytes per PDU: the message must arrive).
 use dicom_ul::association::client::ClientAssociationOptions;
 use dicom_ul::association::server::ServerAssociationOptions;
 use dicom_ul::pdu::{write_pdu, Pdu, MINIMUM_PDU_SIZE};
@@ -111,5 +112,65 @@ fn main() {
         if problem.is_none() && got != *payload { problem = Some(format!("the values concatenate to {} bytes that differ from the {} bytes sent (first difference at {:?})", got.len(), payload.len(), got.iter().zip(payload.iter()).position(|(a, b)| a != b))); }
         if let Some(p) = problem { t.fail(format!("{}: {} (PDU lengths {:?})", label, p, pdus.iter().map(|x| x.0).collect::<Vec<_>>())); }
     }
+    tiny_maximum(&mut t);
     println!("EXHAUSTIVE unit=C26.writer_messages cases={} mismatches={}", t.cases, t.bad);
+}
+
+/// a peer may announce ANY maximum PDU length: with 1..=6 no data byte fits behind the PDV header, and the writer must say so with an
+/// error (never a panic, never an endless run of empty PDUs); with 7, 8, 20 every PDU carries 1, 2, 14 bytes and the message arrives.
+/// The acceptor is hand-written (raw TCP): it answers the request with an A-ASSOCIATE-AC announcing that maximum and collects PDUs.
+fn tiny_maximum(t: &mut Tally) {
+    use dicom_ul::pdu::*;
+    use std::io::Read;
+    for max in [1u32, 4, 5, 6, 7, 8, 20] {
+        t.cases += 1;
+        let listener = match std::net::TcpListener::bind("127.0.0.1:0") { Ok(l) => l, Err(_) => { t.cases -= 1; return; } };
+        let addr = listener.local_addr().unwrap();
+        let peer = std::thread::spawn(move || -> Option<Vec<u8>> {
+            let (mut s, _) = listener.accept().ok()?;
+            s.set_read_timeout(Some(std::time::Duration::from_secs(30))).ok()?;
+            let mut read_one = |s: &mut std::net::TcpStream| -> Option<Pdu> {
+                let mut head = [0u8; 6];
+                s.read_exact(&mut head).ok()?;
+                let len = u32::from_be_bytes([head[2], head[3], head[4], head[5]]) as usize;
+                let mut all = head.to_vec();
+                all.resize(6 + len, 0);
+                s.read_exact(&mut all[6..]).ok()?;
+                read_pdu(&mut std::io::Cursor::new(&all[..]), MAXIMUM_PDU_SIZE, false).ok()?
+            };
+            let contexts = match read_one(&mut s)? { Pdu::AssociationRQ(rq) => rq.presentation_contexts, _ => return None };
+            let ac = Pdu::AssociationAC(AssociationAC { protocol_version: 1, calling_ae_title: "THIS-SCU".into(), called_ae_title: "ANY-SCP".into(), application_context_name: "1.2.840.10008.3.1.1.1".into(),
+                presentation_contexts: contexts.iter().map(|c| PresentationContextResult { id: c.id, reason: PresentationContextResultReason::Acceptance, transfer_syntax: "1.2.840.10008.1.2".into() }).collect(),
+                user_variables: vec![UserVariableItem::MaxLength(max), UserVariableItem::ImplementationClassUID("1.2.3".into())] });
+            let mut bytes = Vec::new();
+            write_pdu(&mut bytes, &ac).ok()?;
+            s.write_all(&bytes).ok()?;
+            let mut got = Vec::new();
+            let mut pdus = 0;
+            loop {
+                match read_one(&mut s) {
+                    Some(Pdu::PData { data }) => { pdus += 1; if pdus > 200 { return Some(got); } for v in data { got.extend_from_slice(&v.data); if v.is_last { return Some(got); } } }
+                    _ => return Some(got),
+                }
+            }
+        });
+        let payload: Vec<u8> = (0..32u8).collect();
+        let outcome = std::panic::catch_unwind(std::panic::AssertUnwindSafe(|| -> Result<Result<(), String>, String> {
+            let mut client = ClientAssociationOptions::new().with_abstract_syntax(ABSTRACT).establish(addr).map_err(|e| e.to_string())?;
+            let ctx = client.presentation_contexts()[0].id;
+            let mut w = client.send_pdata(ctx);
+            let r = w.write_all(&payload).and_then(|_| w.finish()).map_err(|e| e.to_string());
+            let _ = client.abort();
+            Ok(r)
+        }));
+        let received = peer.join().ok().flatten();
+        match outcome {
+            Err(_) => t.fail(format!("peer maximum PDU length {}: sending 32 bytes through send_pdata panicked", max)),
+            Ok(Err(e)) => { println!("SKIPPED unit=C26.writer_messages reason=could not associate with the hand-written acceptor: {}", e); t.cases -= 1; return; }
+            Ok(Ok(r)) => {
+                if max <= 6 { if r.is_ok() { t.fail(format!("peer maximum PDU length {} (no room for data): sending 32 bytes reported success; the acceptor received {:?}", max, received)); } }
+                else if r.is_err() || received.as_deref() != Some(&payload[..]) { t.fail(format!("peer maximum PDU length {}: sending 32 bytes gave {:?}; the acceptor received {:?}", max, r, received)); }
+            }
+        }
+    }
 }
